@@ -94,6 +94,9 @@ TEMPLATES = [
     "def qa(a: \"{H}\"):\n    return a\ny = qa(1)", "def qr(a) -> \"{H}\":\n    return a\ny = qr(1)", "x: \"{H}\" = 1", "def qb(a: \"int\", b: \"{H}\" = 2):\n    return a",
     "mon.write(\"{H}\")", "lcd.line(0, \"{H}\")", "bz.melody(\"{H}\")", "us = Ultrasonic(7, 8, sensor=\"{H}\")", "lcd.animate(\"{H}\", 0, \"{H}\")", "target(\"{H}\")", "s = \"{H}\"\nmon.write(s)",
     "lcd.line(0, 'x', align=\"{H}\")", "lcd.progress(0, 1, 2, style=\"{H}\")", "pin_mode(\"{H}\", 1)", "pot = Potentiometer(\"{H}\")",
+    # collections with a non-finite / huge member handed over by name (the by-name path has its own screening)
+    "pat = [1, 0, 1e400]\nled.flash_pattern(pat)", "pat = [255, -1e999]\nled.flash_pattern(pat, {H})", "pat = [1, float('nan')]\nled.flash_pattern(pat)", "pat = [9**9**9]\nled.flash_pattern(pat)",
+    "g = [1, 2, 3, 4, 5, 6, 7, 1e400]\nlcd.glyph(0, g)", "g = [1, 2, 3, 4, 5, 6, 7, (2**63)**64]\nlcd.glyph({H}, g)", "pat = [1, 0, 1e400]\nq = pat\nled.flash_pattern(q)",
     "x = abs({H})", "x = max({H}, {H})", "x = int({H})", "x = str({H})", "x = h({H})", "a, b, c = 1, {H}", "mon.write(value={H})", "x = y = {H}",
 ]
 PRELUDE = ("from Reduino.Actuators import Led, RGBLed, Servo, DCMotor, Buzzer\nfrom Reduino.Communication import SerialMonitor\nfrom Reduino.Displays import LCD\n"
